@@ -55,6 +55,14 @@ impl<T> MutRc<T> {
   }
 }
 
+#[cfg(rxrust_verif)]
+impl<T> MutArc<T> {
+  /// verification hook: is the cell's lock held right now?
+  pub fn verif_is_locked(&self) -> bool {
+    self.0.try_lock().is_err()
+  }
+}
+
 impl<T> RcDeref for MutRc<T> {
   type Target = T;
   type Ref<'a >  = Ref<'a, T> where Self: 'a;
